@@ -252,6 +252,20 @@ def run_entry(case, sim, mon=None):
     return pts, domain, sampler
 
 
+def giveup_plausible(obj):
+    """The library documents that a filtered sampler raises RuntimeError after 20 rounds without a single valid
+    point. With the generator's filters (acceptance >= 50 % at every row) that has probability <= 2^-20 per
+    call for a leaf that proposes ONE point per round and <= 2^-40 otherwise: in the thorough tier (~1e6 calls
+    of such leaves) the first is an expected, legitimate outcome, the second is not."""
+    if isinstance(obj, dict):
+        if obj.get("filter") and obj.get("n") == 1:
+            return True
+        return any(giveup_plausible(v) for v in obj.values())
+    if isinstance(obj, (list, tuple)):
+        return any(giveup_plausible(v) for v in obj)
+    return False
+
+
 def earlier_prows(case):
     """Parameter rows of the earlier calls of an adaptive history (same number of rows as
     the last call, which uses case['prows'])."""
@@ -863,7 +877,8 @@ def run_case(case, props=("C01", "C02", "C05", "C06", "C10", "C18"), monitors=Tr
                                 msg=str(ex)[:160]))
         except Exception as ex:
             site = innermost_site(ex.__traceback__)
-            if site.endswith("_check_iteration_number") and isinstance(ex, RuntimeError) and case.get("fault"):
+            if site.endswith("_check_iteration_number") and isinstance(ex, RuntimeError) and (
+                    case.get("fault") or giveup_plausible(case.get("entry"))):
                 # documented give-up after 20 empty filter rounds; under adversarial draws
                 # (every proposal on a lattice / constant) the filter may really accept nothing
                 stats["documented_giveup"] = 1
